@@ -255,10 +255,15 @@ fn absent_addr(rng: &mut Rng, pop: &Pop) -> u16 {
 }
 
 fn random_history(rng: &mut Rng, max_len: usize, rep: &mut Report) {
+    let len = 1 + rng.usize(max_len);
+    history_of_length(rng, len, rep)
+}
+
+fn history_of_length(rng: &mut Rng, len: usize, rep: &mut Report) {
     let pop = random_pop(rng);
     let n = pop.addrs.len();
     let mut w = World::new(&pop);
-    let len = 1 + rng.usize(max_len);
+    rep.max("longest_history", len as f64);
     let mut history: Vec<RefMsg> = Vec::with_capacity(len);
     rep.case(Some(rng.next()));
     rep.seen("population_sizes", n as u64);
@@ -364,6 +369,11 @@ pub fn run(ctx: &Ctx) -> Outcome {
             explore_two_signs(bfs_cfgs[shard].0, bfs_cfgs[shard].1, rep);
         } else {
             let mut rng = ctx.rng("hist", (shard - nb) as u64);
+            if shard - nb < 3 {
+                // one bus object living through 100 000 messages
+                history_of_length(&mut rng, 100_000, rep);
+                rep.count("long_histories");
+            }
             for _ in 0..n_hist / shards as u64 {
                 random_history(&mut rng, max_len, rep);
             }
@@ -375,6 +385,7 @@ pub fn run(ctx: &Ctx) -> Outcome {
         floor("(addressed message kind x bystander state) cells observed (of 130)", cells >= 125, cells),
         floor("data delivered while >= 2 signs were receiving", report.get("data_while_two_signs_receiving") > 0, report.get("data_while_two_signs_receiving")),
         floor("absent-address messages of all 10 kinds", report.set_len("absent_address_kinds") == 10, report.set_len("absent_address_kinds")),
+        floor("three histories of 100 000 messages on one bus", report.get("long_histories") == 3, report.get("long_histories")),
         floor("populations of 1..4 signs", report.set_len("population_sizes") == 4, report.set_len("population_sizes")),
         floor("unaddressed data and ignored kinds delivered", report.get("delivered/unaddressed_data") > 0 && report.get("delivered/ignored_kinds") > 0, report.get("delivered/ignored_kinds")),
     ];
